@@ -43,7 +43,14 @@ func c11Once(t *testing.T, s *sim.Scn, k int, o *sim.Outcome) (fired bool) {
 			}
 			op2 := op
 			op2.S = ""
+			if op.K == "produce" && op.A == 1 {
+				// the execution layer refuses this one block (a transient error): production fails, the node
+				// stops and is started again; what it had taken for the block must not be forgotten
+				n.Exec.ExecScript = []bool{true}
+				o.Count("fault:execution-error-in-production", 1)
+			}
 			f, err := r.exec(op2, kk)
+			n.Exec.ExecScript = nil
 			if marked {
 				fired = f
 				if f {
@@ -234,7 +241,7 @@ func c11Gen(r *rand.Rand, tier string) *sim.Scn {
 			s.Ops = append(s.Ops, sim.Op{K: "reap"})
 			cands = append(cands, len(s.Ops)-1)
 		case x < 30+pProduce:
-			s.Ops = append(s.Ops, sim.Op{K: "sleep", A: 1000}, sim.Op{K: "produce"})
+			s.Ops = append(s.Ops, sim.Op{K: "sleep", A: 1000}, sim.Op{K: "produce", A: int64(r.IntN(8) / 7)})
 			cands = append(cands, len(s.Ops)-1)
 		case x < 96:
 			s.Ops = append(s.Ops, sim.Op{K: "tx", A: r.Int64N(4)}, sim.Op{K: "reap"})
